@@ -341,12 +341,17 @@ def examine_circuit_sweep(ctx, rng, n):
         circuit = circgen.impl_circuit(case)
         nodes = sorted({x for c in case['components'] for x in c['nodes']})
         a, b = rng.sample(nodes, 2) if len(nodes) >= 2 else (nodes[0], nodes[0])
-        ws = [0.0, 0.5, 3.0, 3.0 + 2.0 ** -12, 3.0 + 2.0 ** -11, 40.0, 40.0 - 2.0 ** -11]     # also frequencies closer than 1e-3 within one sweep
+        # also frequencies closer than 1e-3 within one sweep; the sweep goes up and down again, so two frequencies occur twice
+        ws = [0.0, 0.5, 3.0, 3.0 + 2.0 ** -12, 3.0 + 2.0 ** -11, 40.0, 40.0 - 2.0 ** -11, 3.0, 0.5]
         try:
             got = np.asarray(cimp.open_circuit_impedance(circuit, a, b, np.array(ws)), dtype=complex)
         except Exception as e:  # noqa: BLE001
             got = None
             err = e
+        if got is not None and got.shape != (len(ws),):
+            ctx.violation('C06:sweep-result-not-aligned-with-the-frequencies', f'Z({a!r},{b!r}) over {len(ws)} frequencies {ws} has shape {got.shape}',
+                          {'circuit': case, 'node1': a, 'node2': b, 'w': ws})
+            continue
         for k, w in enumerate(ws):
             ctx.evaluations += 1
             pn = ssrun.phasor_network(case, w)
@@ -371,6 +376,46 @@ def examine_circuit_sweep(ctx, rng, n):
                         ctx.violation('C06:wrong-dc-resistance', f'{r} vs {complex(want).real}', rep)
                 except Exception as e:  # noqa: BLE001
                     ctx.violation(f'C06:circuit-impedance-raises-{type(e).__name__}', 'open_circuit_dc_resistance', rep)
+        # the impedance seen by an element over the same up-and-down sweep: one value per listed frequency, in the listed order, each equal
+        # to the value of a sweep of that frequency alone and to the port impedance of the rest of the circuit at the element's terminals
+        passive = [c for c in case['components'] if c['kind'] in ('resistor', 'capacitor', 'inductance')]
+        for c in rng.sample(passive, min(1, len(passive))):
+            rep = {'circuit': case, 'element': c['id'], 'w': ws}
+            try:
+                swept = np.asarray(cimp.element_impedance(circuit, c['id'], np.array(ws)), dtype=complex)
+                single = [complex(cimp.element_impedance(circuit, c['id'], np.array([w]))[0]) for w in ws]
+            except Exception as e:  # noqa: BLE001
+                ctx.count(f'element-sweep:raises-{type(e).__name__}(not judged here)')
+                continue
+            ctx.evaluations += 1
+            if swept.shape != (len(ws),):
+                ctx.violation('C06:sweep-result-not-aligned-with-the-frequencies', f'impedance seen by {c["id"]!r} over {len(ws)} frequencies has shape '
+                              f'{swept.shape}', rep)
+                continue
+            for k, w in enumerate(ws):
+                same = swept[k] == single[k] or (np.isnan(swept[k]) and np.isnan(single[k])) or \
+                    abs(swept[k] - single[k]) <= 1e-9 * abs(single[k])
+                if not same:
+                    ctx.violation('C06:sweep-result-not-aligned-with-the-frequencies', f'impedance seen by {c["id"]!r}: entry {k} (w={w}) of the sweep is '
+                                  f'{swept[k]}, a sweep of that frequency alone gives {single[k]}', rep)
+                    break
+                pn = ssrun.phasor_network(case, w)
+                rest = {'zero': pn['zero'], 'branches': [x for x in pn['branches'] if x['id'] != c['id']]}
+                touched = {x['n1'] for x in rest['branches']} | {x['n2'] for x in rest['branches']}
+                if pn['zero'] not in touched or c['nodes'][0] not in touched or c['nodes'][1] not in touched:
+                    continue
+                want = port_impedance(rest, c['nodes'][0], c['nodes'][1])
+                if want is None or isinstance(want, str):
+                    continue
+                zr = zeroed(rest)
+                if netrun.mna_cond({'zero': c['nodes'][1], 'branches': zr['branches'] + [{'id': 'p', 'n1': c['nodes'][1], 'n2': c['nodes'][0],
+                                                                                         'ctor': 'current_source', 'args': [[1.0, 0.0], [0.0, 0.0]]}]}) > 1e8:
+                    continue
+                zscale = max([abs(complex(want))] + [x['params']['R'] * 1e-6 for x in case['components'] if x['kind'] == 'resistor'] + [1e-9])
+                if abs(single[k] - complex(want)) > 1e-7 * zscale:
+                    ctx.violation('C06:wrong-circuit-element-impedance', f'seen by {c["id"]!r} at w={w}: {single[k]}, exact {complex(want)}',
+                                  dict(rep, w=w))
+                    break
 
 
 def run(ctx):
